@@ -1188,7 +1188,14 @@ def _origins_place(body, place, passthru, seen, out, depth, pend=None):
                 break
             if isinstance(p, str) and p.startswith('f'):
                 fpath.append(p.split(':')[0])
-        out.add(('payload', chain[0], lty, '>'.join(chain), '.'.join(reversed(fpath))))
+        # fields selected before the first downcast (e.g. which element of a scrutinee tuple)
+        pre = []
+        for p in projs:
+            if isinstance(p, str) and p.startswith('v') and ':' in p:
+                break
+            if isinstance(p, str) and p.startswith('f'):
+                pre.append(p.split(':')[0])
+        out.add(('payload', chain[0], lty, '>'.join(chain), '.'.join(reversed(fpath)), '.'.join(pre)))
         return
     key = (L, tuple(str(p) for p in projs if isinstance(p, str) and p.startswith('f')), pend)
     if key in seen or depth > 80:
